@@ -132,6 +132,10 @@ class SpecialFamily(Family):
                         if r is not None:
                             self.add_stats(r[1])
                             scripts.append((gen.script_id(r[0]), r[0], None))
+                for _ in range(4 * mult):
+                    lines, st = gen.gen_moved_from(L, K, rng)
+                    self.add_stats(st)
+                    scripts.append((gen.script_id(lines), lines, None))
                 jobs.append(Job(L, K, scripts, tag="special"))
         return jobs
 
@@ -151,6 +155,10 @@ class EmptyFamily(Family):
             scripts = []
             for _ in range(self.nscripts * mult):
                 lines, st = gen.gen_empty(L, K, rng)
+                self.add_stats(st)
+                scripts.append((gen.script_id(lines), lines, None))
+            for _ in range(6 * mult):
+                lines, st = gen.gen_moved_from(L, K, rng)
                 self.add_stats(st)
                 scripts.append((gen.script_id(lines), lines, None))
             jobs.append(Job(L, K, scripts, tag="empty"))
